@@ -1,5 +1,6 @@
 import Sm9.Proofs.SpecField
 import Sm9.Proofs.MillerFrobenius
+import Sm9.Proofs.SpecTwin
 /-!
 # The oracle's curve arithmetic (`Spec.slope2`, `ptAdd`, `lineEval`, `frobTwist`)
 against Mathlib's `WeierstrassCurve.Affine` on the twist `Jac.Wb b2`, `Miller.lineSpec`, `Miller.frobTwist`
@@ -118,6 +119,95 @@ theorem lineEval_body (xT yT lam : Fq2) (xP yP : Fq) (W1 : Spec.F12) (hW : W1 = 
   congr 1
   rw [map_neg, map_mul, ← Fq12.ofFq_eq_ofFq2, ← inv_pow]
   ring
+
+make_twin Sm9.Spec.lineEval as lineEvalT abstracting Sm9.Spec.slope2
+make_twin Sm9.Spec.frobTwist as frobTwistT abstracting Sm9.Spec.F12.toQ2?
+
+
+theorem lineEvalT_some (sl : Spec.Q2 × Spec.Q2 → Spec.Q2 × Spec.Q2 → Option Spec.Q2)
+    (T Q : Spec.Q2 × Spec.Q2) (P : ℕ × ℕ) (lam : Spec.Q2) (h : sl T Q = some lam) :
+    lineEvalT sl T Q P =
+      Spec.F12.add (Spec.F12.ofQ P.2)
+        (Spec.F12.add
+          (Spec.F12.mul (Spec.F12.ofQ2 (Spec.Q2.neg (Spec.Q2.mul lam (Spec.Q2.ofNat P.1)))) Spec.F12.winv)
+          (Spec.F12.mul (Spec.F12.ofQ2 (Spec.Q2.sub (Spec.Q2.mul lam T.1) T.2))
+            (Spec.F12.mul Spec.F12.winv (Spec.F12.mul Spec.F12.winv Spec.F12.winv)))) := by
+  unfold lineEvalT
+  rw [h]
+theorem lineEval_eq (xT yT xQ yQ : Fq2) (xP yP : Fq) (h : ¬(xT = xQ ∧ yT = -yQ)) :
+    Spec.lineEval (toQ2 xT, toQ2 yT) (toQ2 xQ, toQ2 yQ) (xP.val, yP.val)
+      = toF12 (lineSpec xT yT (W.slope xT xQ yT yQ) xP yP) := by
+  have hs := slope2_eq xT yT xQ yQ
+  rw [if_neg h] at hs
+  rw [lineEvalT.eq, lineEvalT_some _ _ _ _ _ hs]
+  exact lineEval_body xT yT _ xP yP Spec.F12.winv toF12_winv
+
+theorem lineEvalT_none (sl : Spec.Q2 × Spec.Q2 → Spec.Q2 × Spec.Q2 → Option Spec.Q2)
+    (T Q : Spec.Q2 × Spec.Q2) (P : ℕ × ℕ) (h : sl T Q = none) :
+    lineEvalT sl T Q P =
+      Spec.F12.add (Spec.F12.ofQ P.1)
+        (Spec.F12.mul (Spec.F12.ofQ2 (Spec.Q2.neg T.1)) (Spec.F12.mul Spec.F12.winv Spec.F12.winv)) := by
+  unfold lineEvalT
+  rw [h]
+
+theorem lineEval_vertical (xT yT xQ yQ : Fq2) (xP yP : Fq) (h : xT = xQ ∧ yT = -yQ) :
+    Spec.lineEval (toQ2 xT, toQ2 yT) (toQ2 xQ, toQ2 yQ) (xP.val, yP.val)
+      = toF12 (ofFq xP - ofFq2 xT * (w ^ 2)⁻¹) := by
+  have hs := slope2_eq xT yT xQ yQ
+  rw [if_pos h] at hs
+  rw [lineEvalT.eq, lineEvalT_none _ _ _ _ hs]
+  have key : ∀ W1 : Spec.F12, W1 = toF12 w⁻¹ →
+      Spec.F12.add (Spec.F12.ofQ xP.val)
+        (Spec.F12.mul (Spec.F12.ofQ2 (Spec.Q2.neg (toQ2 xT))) (Spec.F12.mul W1 W1))
+      = toF12 (ofFq xP - ofFq2 xT * (w ^ 2)⁻¹) := by
+    intro W1 hW
+    subst hW
+    rw [toQ2_neg, toF12_ofQ2, toF12_ofQ, toF12_mul, toF12_mul, toF12_add]
+    congr 1
+    rw [map_neg, pow_two, mul_inv]
+    ring
+  exact key _ toF12_winv
+theorem w_ne_zero : w ≠ 0 := by decide +kernel
+theorem mono2 : Spec.F12.mono 2 1 = toF12 (w ^ 2) := by decide +kernel
+theorem mono3 : Spec.F12.mono 3 1 = toF12 (w ^ 3) := by decide +kernel
+theorem frobTwist_body (p : Fq2 × Fq2) (W1 : Spec.F12) (hW : W1 = toF12 w⁻¹) (e : ℕ) (he : e = q) :
+    Spec.F12.mul (Spec.F12.pow (Spec.F12.mul (Spec.F12.ofQ2 (toQ2 p.1)) (Spec.F12.mul W1 W1)) e)
+        (Spec.F12.mono 2 1) = toF12 (ofFq2 (Miller.frobTwist p).1) ∧
+    Spec.F12.mul (Spec.F12.pow (Spec.F12.mul (Spec.F12.ofQ2 (toQ2 p.2))
+        (Spec.F12.mul (Spec.F12.mul W1 W1) W1)) e) (Spec.F12.mono 3 1)
+      = toF12 (ofFq2 (Miller.frobTwist p).2) := by
+  subst hW
+  rw [mono2, mono3]
+  simp only [toF12_ofQ2, toF12_mul, toF12_pow]
+  have e2 : w⁻¹ * w⁻¹ = (w ^ 2)⁻¹ := by rw [pow_two, mul_inv]
+  have e3 : w⁻¹ * w⁻¹ * w⁻¹ = (w ^ 3)⁻¹ := by rw [pow_succ, pow_two, mul_inv, mul_inv]
+  have hx := frobTwist_untwist_x p
+  have hy := frobTwist_untwist_y p
+  rw [← he] at hx hy
+  constructor
+  · rw [e2, ← hx, inv_mul_cancel_right₀ (pow_ne_zero 2 w_ne_zero)]
+  · rw [e3, ← hy, inv_mul_cancel_right₀ (pow_ne_zero 3 w_ne_zero)]
+theorem frobTwistT_some (tq : Spec.F12 → Option Spec.Q2) (Q : Spec.Q2 × Spec.Q2) (x' y' : Spec.Q2)
+    (hx : tq (Spec.F12.mul (Spec.F12.pow (Spec.F12.mul (Spec.F12.ofQ2 Q.1)
+        (Spec.F12.mul Spec.F12.winv Spec.F12.winv)) Spec.q) (Spec.F12.mono 2 1)) = some x')
+    (hy : tq (Spec.F12.mul (Spec.F12.pow (Spec.F12.mul (Spec.F12.ofQ2 Q.2)
+        (Spec.F12.mul (Spec.F12.mul Spec.F12.winv Spec.F12.winv) Spec.F12.winv)) Spec.q) (Spec.F12.mono 3 1)) = some y') :
+    frobTwistT tq Q = some (x', y') := by
+  unfold frobTwistT
+  simp only []
+  rw [hx, hy]
+theorem frobTwist_eq (p : Fq2 × Fq2) :
+    Spec.frobTwist (toQ2 p.1, toQ2 p.2)
+      = some (toQ2 (Miller.frobTwist p).1, toQ2 (Miller.frobTwist p).2) := by
+  obtain ⟨h1, h2⟩ := frobTwist_body p Spec.F12.winv toF12_winv Spec.q SpecField.q_eq
+  rw [frobTwistT.eq]
+  apply frobTwistT_some
+  · show Spec.F12.toQ2? (Spec.F12.mul (Spec.F12.pow (Spec.F12.mul (Spec.F12.ofQ2 (toQ2 p.1))
+        (Spec.F12.mul Spec.F12.winv Spec.F12.winv)) Spec.q) (Spec.F12.mono 2 1)) = _
+    rw [h1, toQ2?_toF12_ofFq2]
+  · show Spec.F12.toQ2? (Spec.F12.mul (Spec.F12.pow (Spec.F12.mul (Spec.F12.ofQ2 (toQ2 p.2))
+        (Spec.F12.mul (Spec.F12.mul Spec.F12.winv Spec.F12.winv) Spec.F12.winv)) Spec.q) (Spec.F12.mono 3 1)) = _
+    rw [h2, toQ2?_toF12_ofFq2]
 
 end SpecCurve
 end Sm9
